@@ -81,6 +81,8 @@ ObsInit(cfg) ==
     restart|-> {},                                 \* buses used again (dispatch, wait_until_idle) after stop() began
     crl    |-> {},                                 \* buses whose background task was cancelled
     exps   |-> {},                                 \* pending / finished expect calls
+    walw   |-> [b \in BusNames(cfg) |-> <<>>],     \* events whose WAL line was appended on b, in order
+    walf   |-> {},                                 \* <<b,e>> whose WAL write failed (injected I/O fault)
     now    |-> 0,
     wit    |-> {},
     cnt    |-> [g \in Groups |-> 0] ]
@@ -413,6 +415,30 @@ StepProcE(cfg, o, ln) == Bump([o EXCEPT !.proc[ln.b] = Append(@, ln.e)], "comple
 StepProcX(cfg, o, ln) == [o EXCEPT !.procX = @ \cup {<<ln.b, ln.e, ln.exc>>}]
 
 \* ------------------------------------------------------------------------
+\* write-ahead log (C17)
+\* ------------------------------------------------------------------------
+StepWal(cfg, o, ln) ==
+  LET o1 == Bump([o EXCEPT !.walw[ln.b] = Append(@, ln.e)], "wal")
+      s == o.snap[ln.e]
+      w == IF ln.e = 0 THEN {W("C17.undecodable", 0, ln.b, "", 0, "")}
+           ELSE IF \E i \in DOMAIN s.res : s.res[i].b = ln.b /\ ~Terminal(s.res[i].st)
+                THEN {W("C17.early", ln.e, ln.b, "", 0, "line written before the handlers of this bus finished")} ELSE {}
+  IN AddW(o1, w)
+StepWalFault(cfg, o, ln) == [o EXCEPT !.walf = @ \cup {<<ln.b, ln.e>>}]
+WalEndW(cfg, o, ln) ==
+  UNION { LET b == p[1]  items == p[2]
+              got == [i \in 1..Len(items) |-> items[i][1]]
+              failed == {x[2] : x \in {y \in o.walf : y[1] = b}}
+              want == SeqMinus(o.proc[b], failed)
+              have == SeqMinus(got, failed)
+          IN (IF \E i \in DOMAIN items : ~items[i][2] THEN {W("C17.unfaithful", items[CHOOSE i \in DOMAIN items : ~items[i][2]][1], b, "", 0, "")} ELSE {})
+             \cup (IF Len(have) < Len(want) THEN {W("C17.missing_line", 0, b, "", Len(want) - Len(have), "")} ELSE {})
+             \cup (IF Len(have) > Len(want) THEN {W("C17.extra_line", 0, b, "", Len(have) - Len(want), "")} ELSE {})
+             \cup (IF Len(have) = Len(want) /\ have # want THEN {W("C17.order", 0, b, "", 0, "")} ELSE {})
+             \cup (IF got # o.walw[b] THEN {W("X.wal_log_mismatch", 0, b, "", 0, "")} ELSE {})
+        : p \in Range(ln.wal) }
+
+\* ------------------------------------------------------------------------
 \* accessor (C11)
 \* ------------------------------------------------------------------------
 StepAcc(cfg, o, ln) ==
@@ -487,7 +513,7 @@ StepEnd(cfg, o, ln) ==
       w16 == {W("C16.cancel_ignored", 0, b, "", 0, "") : b \in {c \in o.crl : ~InSeq(c, ln.crldone)}}
       harness == IF ln.failed # <<>> THEN {W("X.driver_failed", 0, "", "", 0, ln.failed[1])} ELSE {}
       o1 == Bump(o, "end")
-  IN AddW(o1, w7t \cup wl \cup harness \cup w16 \cup (IF aborted THEN {} ELSE w1 \cup w14 \cup wq \cup w10 \cup w11 \cup w7))
+  IN AddW(o1, w7t \cup wl \cup harness \cup w16 \cup (IF aborted THEN {} ELSE w1 \cup w14 \cup wq \cup w10 \cup w11 \cup w7 \cup WalEndW(cfg, o, ln)))
 
 \* ------------------------------------------------------------------------
 \* the monitor
@@ -514,6 +540,8 @@ StepCore(cfg, o, o0, ln) ==
               [] ln.a = "ProcE"    -> StepProcE(cfg, o0, ln)
               [] ln.a = "ProcX"    -> StepProcX(cfg, o0, ln)
               [] ln.a = "Acc"      -> StepAcc(cfg, o0, ln)
+              [] ln.a = "Wal"      -> StepWal(cfg, o0, ln)
+              [] ln.a = "WalFault" -> StepWalFault(cfg, o0, ln)
               [] ln.a = "End"      -> StepEnd(cfg, o0, ln)
               [] OTHER             -> o0
   IN AfterEvery(cfg, o, o1, ln)
